@@ -11,6 +11,7 @@ import (
 	"time"
 
 	"github.com/hashicorp/go-hclog"
+	"github.com/hashicorp/go-plugin/internal/verifhook"
 	"github.com/hashicorp/yamux"
 )
 
@@ -116,6 +117,7 @@ func (m *GRPCServerMuxer) Accept() (net.Conn, error) {
 
 	for {
 		conn, acceptErr := session.Accept()
+		verifhook.Point("smux.accept.conn", m, 0, verifhook.B(acceptErr == nil))
 
 		select {
 		case id := <-m.knockCh:
@@ -124,17 +126,20 @@ func (m *GRPCServerMuxer) Accept() (net.Conn, error) {
 			m.acceptMutex.Unlock()
 
 			if !ok {
+				verifhook.Point("smux.route", m, int64(id), -1)
 				if conn != nil {
 					_ = conn.Close()
 				}
 				return nil, fmt.Errorf("received knock on ID %d that doesn't have a listener", id)
 			}
+			verifhook.Point("smux.route", m, int64(id), 1)
 			m.logger.Debug("sending conn to brokered listener", "id", id)
 			acceptCh <- acceptResult{
 				conn: conn,
 				err:  acceptErr,
 			}
 		default:
+			verifhook.Point("smux.route", m, 0, 0)
 			m.logger.Debug("sending conn to default listener")
 			return conn, acceptErr
 		}
@@ -175,6 +180,7 @@ func (m *GRPCServerMuxer) Listener(id uint32, doneCh <-chan struct{}) (net.Liste
 	ln := newBlockedServerListener(sess.Addr(), doneCh)
 	m.acceptMutex.Lock()
 	m.acceptChannels[id] = ln.acceptCh
+	verifhook.Point("smux.listener", m, int64(id), 0)
 	m.acceptMutex.Unlock()
 
 	return ln, nil
@@ -196,5 +202,6 @@ func (m *GRPCServerMuxer) Dial() (net.Conn, error) {
 
 func (m *GRPCServerMuxer) AcceptKnock(id uint32) error {
 	m.knockCh <- id
+	verifhook.Point("smux.acceptknock", m, int64(id), 0)
 	return nil
 }
